@@ -21,6 +21,10 @@ try:
     rc_clean, out_clean = run_demo()
     ap = subprocess.run(["git", "-C", wt, "apply", patch], capture_output=True, text=True)
     if ap.returncode:
+        # the tree moved on next to the patched lines (a later fix: commit): retry with fuzzy context matching
+        ap = subprocess.run(["patch", "-p1", "-F3", "-s", "-i", os.path.abspath(patch)], capture_output=True, text=True, cwd=wt)
+        meta["applied_with_fuzz"] = ap.returncode == 0
+    if ap.returncode:
         print("patch does not apply:", ap.stderr[:300]); sys.exit(3)
     rc_mut, out_mut = run_demo()
     for attempt in range(3):
